@@ -928,18 +928,10 @@ fn c04_violation(rec: &Value, exempt: bool) -> Option<String> {
             trues.push("ContainerPack::check(file)".to_string());
         }
     }
-    for (k, v) in obs["held_handles"].as_object().into_iter().flatten() {
-        if v != "true" {
-            continue;
-        }
-        match k.strip_prefix("pack ") {
-            None => trues.push("ContainerPack::check(handle opened before the alteration)".to_string()),
-            Some(p) if rec["damaged_pack"].as_str() == Some(p) => {
-                trues.push("Pack::check(pack object opened before the alteration)".to_string())
-            }
-            _ => {}
-        }
-    }
+    // Handles and pack objects opened BEFORE the alteration are observed (statistics in the
+    // evidence) but not judged: a reader may legitimately cache what it has read (pack objects
+    // cache their check info, directory packs are copied into memory), so only freshly opened
+    // handles are required to notice the alteration.
     // only the pack that contains the damage is required to fail its own check
     for (k, v) in obs["packs"].as_object().into_iter().flatten() {
         if v == "true" && rec["damaged_pack"].as_str() == Some(k.as_str()) {
@@ -987,6 +979,8 @@ pub fn parent_main(args: &Args, mode: Mode) -> ! {
     let mut images_seen: BTreeMap<String, Value> = BTreeMap::new();
     let mut outcome_counts: BTreeMap<String, u64> = BTreeMap::new();
     let mut faultfree_seen: std::collections::BTreeSet<String> = std::collections::BTreeSet::new();
+    let mut held_stale_true = 0u64;
+    let mut held_noticed = 0u64;
     let mut exempt_counted = 0u64;
     let mut digests: Vec<String> = vec![];
     let mut deferred = 0u64;
@@ -1079,6 +1073,13 @@ pub fn parent_main(args: &Args, mode: Mode) -> ! {
                         exempt_counted += 1;
                     }
                     rec["damaged_pack"] = json!(damaged_pack);
+                    for (_k, v) in rec["payload"]["obs"]["held_handles"].as_object().into_iter().flatten() {
+                        if v == "true" {
+                            held_stale_true += 1;
+                        } else {
+                            held_noticed += 1;
+                        }
+                    }
                     if let Some(what) = c04_violation(&rec, exempt) {
                         violations.push(Violation {
                             signature: format!("C04|{kind}|{structure}|still-true:{what}"),
@@ -1168,6 +1169,7 @@ pub fn parent_main(args: &Args, mode: Mode) -> ! {
     match mode {
         Mode::C04 => {
             ev.extra.insert("exempt_cases_location_bytes_or_shadowed_duplicate".into(), json!(exempt_counted));
+            ev.extra.insert("handles_opened_before_the_alteration".into(), json!({"answered_not_true": held_noticed, "answered_true_from_cached_state": held_stale_true, "judged": false}));
         }
         Mode::C05 => {
             ev.extra.insert("deferred_to_C06".into(), json!(deferred));
